@@ -106,6 +106,16 @@ Proof. repeat split. Qed.
 Lemma tie_transmutes_count : length gen_transmutes = 14%nat.
 Proof. reflexivity. Qed.
 
+(* ---- which methods each trait impl defines itself (all others are the trait's defaults) ---- *)
+Definition methods_of (header : string) : option (list string) :=
+  match find (fun r => String.eqb (snd (fst r)) header) gen_impl_methods with
+  | Some (_, _, ms) => Some ms
+  | None => None
+  end.
+
+Lemma tie_impl_count : length gen_impl_methods = 72%nat.
+Proof. reflexivity. Qed.
+
 (* ---- impl_tuple!: both conversions are safe destructurings -- the tuple is taken apart into the
         bindings $t.. and rebuilt as the array literal [$t..] through from_array, the array is turned
         into a native array by into_array, taken apart into the same bindings and rebuilt as the tuple:
